@@ -68,6 +68,9 @@ def obligations(ops, outs):
     return obs
 
 
+obligations.tail_only = True
+
+
 def r_family(mir, name, mode, n, p, extra, seed, to, short=False):
     """prefix length p, suffix length n + LAG + extra (short: one less than needed -> must be able to differ)"""
     L = n + LAG[name] + extra - (1 if short else 0)
@@ -76,7 +79,13 @@ def r_family(mir, name, mode, n, p, extra, seed, to, short=False):
     ops = [('new', 'a', name, (n,), mult)] + [('feed', 'a', v) for v in pre + suf] + \
           [('new', 'b', name, (n,), mult)] + [('feed', 'b', v) for v in suf]
     kind = 'validbar' if mode == 'bar' else ('positive' if name in ('ROC', 'ER') else 'any')
-    assume = stream_assumptions(pre + suf, kind) + ([mult >= 0, mult <= 1000] if mult is not None else [])
+    if name in ('ROC', 'ER'):
+        # the prefix may contain exact zeros (a zero reference price makes an intermediate output inf/NaN, which is not what is compared);
+        # the suffix that determines the compared output is positive
+        assume = stream_assumptions(suf, 'positive') + rcore.bounds(pre) + [x >= 0 for x in pre]
+    else:
+        assume = stream_assumptions(pre + suf, kind)
+    assume += ([mult >= 0, mult <= 1000] if mult is not None else [])
     fam = 'R:C17 %s %s n=%d prefix=%d suffix=%d%s' % (name, mode, n, p, L, ' (too short: must be able to differ)' if short else '')
     b = dict(engine='R', indicator=name, input=mode, n=n, prefix=p, suffix=L, inputs=kind + ', prefix magnitudes unconstrained up to 1e12 (spikes included)')
     if not short:
